@@ -35,7 +35,11 @@ ROWS = [
     ("r3v", "const std::string r3v()", "c++"),
     ("r3ref", "const std::string &r3ref()", "c++"),
     ("r3len", "const std::string &r3len() +len(5)", "c++"),
+    # strings.yaml getConstStringPtrLen / cstatements.rst "final": a caller-owned result whose text is copied into the
+    # Fortran result (post_call) and which the user's final clause releases afterwards
+    ("r3own", "const std::string *r3own() +len(5)", "c++"),
 ]
+EXTRA_YAML = {"r3own": {"fstatements": {"c_buf": {"final": ["delete {cxx_var};"]}}}}
 
 
 def rows_for(lang, only=None, skip=()):
@@ -49,7 +53,7 @@ def yaml_text(lang, options):
     import yaml
     doc = {"library": "StrLib", "language": lang, "cxx_header": "strlib.h",
            "options": dict({"wrap_python": False, "wrap_lua": False}, **(options or {})),
-           "declarations": [{"decl": d} for _n, d, _l in rows_for(lang, **SELECT)]}
+           "declarations": [dict({"decl": d}, **EXTRA_YAML.get(_n, {})) for _n, d, _l in rows_for(lang, **SELECT)]}
     return yaml.safe_dump(doc, sort_keys=False, width=1000)
 
 
@@ -97,6 +101,8 @@ def subject(lang):
             body.append("%s { return std::string(vf_next); }" % proto)
         elif name in ("r3ref", "r3len"):
             body.append("%s { static std::string keep; keep = vf_next; return keep; }" % proto)
+        elif name == "r3own":
+            body.append("%s { return new std::string(vf_next); }" % proto)
     h.append("#endif")
     return {"strlib.h": "\n".join(h) + "\n", "xlib." + ("cpp" if cxx else "c"): "\n".join(body) + "\n",
             "vf_support.h": xlib.SUPPORT_H, "vf_support.c": xlib.SUPPORT_C}
@@ -146,7 +152,7 @@ def f_driver(lang, bound):
             body += ["  do n = %d, B" % (-1 if name == "r1" else 0), "    do code = 0, 3**max(n, 0) - 1", "      block", "        character(len=:), allocatable :: rv",
                      "        call vf_set_next(n, code)", "        call vf_tag(%d, 0, n, code)" % rid, "        rv = %s()" % name,
                      "        call vf_os(-1, rv, len(rv, kind=C_INT))", "      end block", "    end do", "  end do"]
-        elif name in ("r1len", "r3len"):
+        elif name in ("r1len", "r3len", "r3own"):
             body += ["  do n = %d, B" % (-1 if name == "r1len" else 0), "    do code = 0, 3**max(n, 0) - 1", "      block", "        character(len=5) :: rv",
                      "        call vf_set_next(n, code)", "        call vf_tag(%d, 5, n, code)" % rid, "        rv = %s()" % name,
                      "        call vf_os(-1, rv, len(rv, kind=C_INT))", "      end block", "    end do", "  end do"]
@@ -217,7 +223,7 @@ def expected(lang, bound):
                     out.append("G %d 0 %d %d" % (rid, n, code))
                     # allocatable result: exactly the C string's length; NULL -> zero length
                     out.append("O rv s " + xlib.esc(content(max(n, 0), code)))
-        elif name in ("r1len", "r3len"):
+        elif name in ("r1len", "r3len", "r3own"):
             for n in range(-1 if name == "r1len" else 0, B + 1):
                 for code in range(3 ** max(n, 0)):
                     out.append("G %d 5 %d %d" % (rid, n, code))
@@ -283,7 +289,9 @@ def run_c10(ctx):
     quick = ctx.tier == "quick"
     bound = 3 if quick else 5
     # char** together with F_CFI is a recorded known finding: excluded here, probed below
-    jobs = [(lang, opts, bound, True, None, ("take_names",) if opts else ()) for lang in ("c", "c++") for opts in (None, {"F_CFI": True})]
+    # (the user's final clause can only be given for the buffer variant - fstatements key c_buf - so the caller-owned
+    #  result row is not part of the F_CFI runs)
+    jobs = [(lang, opts, bound, True, None, ("take_names", "r3own") if opts else ()) for lang in ("c", "c++") for opts in (None, {"F_CFI": True})]
     ctx.exclude_known("probe:charpp-cfi", 2)
     total_nt = 0
     for out in core.pool_map(_job, jobs):
@@ -312,6 +320,6 @@ def replay_c10(ctx, rec):
         if out["problems"]:
             ctx.failure("probe:charpp-cfi", c, observed=out["problems"][0][1], note=out["problems"][0][1])
         return
-    out = _job((c["lang"], c["options"], c["bound"], True, None, ("take_names",) if c["options"] else ()))
+    out = _job((c["lang"], c["options"], c["bound"], True, None, ("take_names", "r3own") if c["options"] else ()))
     for key, note in out["problems"]:
         ctx.failure(key + (":cfi" if out["options"] else ""), c, observed=note, note=note)
